@@ -18,7 +18,7 @@ use quick_xml::{
 };
 use rpsl::expr::MpFilterExpr;
 
-use super::{Candidate, Installed, Name, Policies, Ranges};
+use super::{Candidate, FilterExpr, Installed, Name, Policies, Ranges};
 
 pub(crate) trait Fetch: ReadXml + Debug + Send + Sync + Sized {
     const DATASTORE: Datastore;
@@ -149,9 +149,6 @@ impl ReadXml for Maybe<Candidate> {
         // if both `active` and `comment` attributes are present on an object, then the JUNOS
         // NETCONF server emits duplicate `xmlns:jcmd` attributes.
         // duplicate attribute checks are disabled as a temporary workaround.
-        // TODO:
-        // avoid deleting previously installed policy-statement, if the running-config now has a
-        // malformed mp-filter expr.
         for attr in start.attributes().with_checks(false) {
             let attr = attr.map_err(|err| ReadError::Other(err.into()))?;
             match reader.resolve_attribute(attr.key) {
@@ -171,10 +168,14 @@ impl ReadXml for Maybe<Candidate> {
                     match raw_expr.map(|raw| (raw, raw.parse::<MpFilterExpr>())) {
                         Some((raw, Ok(expr))) => {
                             tracing::debug!(raw, ?expr);
-                            maybe_filter_expr = Some(expr);
+                            maybe_filter_expr = Some(FilterExpr::Parsed(expr));
                         }
                         Some((raw, Err(err))) => {
-                            tracing::warn!("skipping malformed filter expression '{raw}': {err}");
+                            // Keep the statement as a candidate that cannot be evaluated, so that
+                            // an already installed policy-statement is left alone instead of
+                            // being deleted as "no longer managed".
+                            tracing::warn!("malformed filter expression '{raw}': {err}");
+                            maybe_filter_expr = Some(FilterExpr::Malformed(raw.trim().to_string()));
                         }
                         None => continue,
                     }
